@@ -2,7 +2,7 @@
    Only statements, each closed by `exact`, with Print Assumptions. *)
 From Coq Require Import NArith List Bool.
 From Coq Require Import ZArith.
-From PS Require Import Base.Chars Base.Outcome Model.SString Model.Slice Spec.Items Proofs.SStringP Proofs.ConvertP Proofs.SliceP.
+From PS Require Import Base.Chars Base.Outcome Model.SString Model.Slice Spec.Items Proofs.SStringP Proofs.ConvertP Proofs.SliceP Proofs.QuoteP.
 Import ListNotations.
 
 (* the parser of SigmaString.__init__ reads a source string exactly as the specification's
@@ -32,6 +32,15 @@ Theorem C05_convert_decode :
                 tread K q = Some (filter_items K (items v)).
 Proof. exact convert_decode. Qed.
 Print Assumptions C05_convert_decode.
+
+(* no break-out: the quoted literal emitted by convert_value_str, read by the target's own rules
+   (opening quote, escape + any character, wildcard tokens, first unescaped quote closes), ends exactly
+   at its last character and yields the value's items - no source character terminates the literal *)
+Theorem C05_quoted_decode :
+  forall K q v s, wf_quoting K q = true -> convert_quoted K q v = Ok s ->
+                  qread (with_quote K q) q s = Some (filter_items K (items v)).
+Proof. exact quoted_decode. Qed.
+Print Assumptions C05_quoted_decode.
 
 (* without the premise the statement is false, already for the shipped test backend *)
 Theorem C05_unescaped_escape_refuted :
